@@ -65,7 +65,7 @@ def ensure_build(timeout: int = 1500) -> Tuple[bool, str]:
     lock = open(os.path.join(COQ, ".build.lock"), "w")
     fcntl.flock(lock, fcntl.LOCK_EX)
     try:
-        files = theory_files() + gen_fact_files()
+        files = theory_files()   # generated facts are compiled per property, not in the shared build
         proj = "-Q theories KV\n-Q generated KVGen\n" + "\n".join(files) + "\n"
         pp = os.path.join(COQ, "_CoqProject")
         old = open(pp).read() if os.path.exists(pp) else ""
